@@ -502,8 +502,15 @@ func init() {
 		wg.Wait()
 		replayDone := make(chan struct{})
 		go func() { c09Replay(run, &mu, &evals, &nontrivial); close(replayDone) }()
+		rotateDone := make(chan struct{})
+		go func() { c09Rotate(run, &mu, &evals, &nontrivial); close(rotateDone) }()
 		c09PerPort(run, &mu, &evals, &nontrivial)
 		<-replayDone
+		<-rotateDone
+		if c09RotateAccepted == 0 && run.Violations() == 0 {
+			evid.Fatal("vacuous: no token of a currently published JWKS key was accepted in the rotation case")
+		}
+		run.Set("accepted_probes_in_the_jwks_rotation_case", c09RotateAccepted)
 		if c09Accepted == 0 {
 			evid.Fatal("vacuous: no probe at all was accepted (the plainly valid token is refused under every configuration: %v)", c09ValidRefused)
 		}
@@ -516,7 +523,7 @@ func init() {
 		run.Set("evaluations", evals)
 		run.Set("distinct_nontrivial", nontrivial)
 		run.Set("key_configurations", len(cfgs))
-		run.Set("rule", "per key configuration (real server.NewServer with the same auth on proxy, upstream and admin ports): (a) algorithm x signing key x tampering and the claims cross product (exp x nbf x aud x iss) on one main route per port, (b) 12 header presentations (incl. a client-set x-piko-forward marker) x {valid, wrong-key}, (c) every route registered on the live gin engines (+ an unregistered path) x one token per rejection class, (d) 7 layouts of independent per-port keys x main routes x token signed by {proxy key, upstream key, admin key, empty key, none}, (e) a 2s token accepted while fresh and presented again after its expiry, {tenants, no tenants} x disconnect-on-expiry {on, off}; non-trivial = probes that must be refused (401, sentinel upstream untouched)")
+		run.Set("rule", "per key configuration (real server.NewServer with the same auth on proxy, upstream and admin ports): (a) algorithm x signing key x tampering and the claims cross product (exp x nbf x aud x iss) on one main route per port, (b) 12 header presentations (incl. a client-set x-piko-forward marker) x {valid, wrong-key}, (c) every route registered on the live gin engines (+ an unregistered path) x one token per rejection class, (d) 7 layouts of independent per-port keys x main routes x token signed by {proxy key, upstream key, admin key, empty key, none}, (e) a 2s token accepted while fresh and presented again after its expiry, {tenants, no tenants} x disconnect-on-expiry {on, off}, (f) a remote JWKS endpoint (cache ttl 300ms, timeout {unset, 5s}) rotated {A} -> {A,B} -> {B} -> {A}: after each rotation tokens of a key no longer published are presented on all three ports; non-trivial = probes that must be refused (401, sentinel upstream untouched)")
 		run.Set("exhaustive", true)
 		run.Assume("gin's trailing-slash redirect is not in the alphabet (a 301 from the router, no handler runs)")
 		fmt.Printf("  C09: configurations=%d probes=%d must-refuse=%d\n", len(cfgs), evals, nontrivial)
